@@ -365,7 +365,7 @@ class Gen:
             twice = r.random() < 0.2
             # laying out twice: a second flatten() moves an EMPTY section (and the labels bound in it) to the aligned end of its extended
             # predecessor, references resolved by the first layout would be stale - that is C10's subject, keep sections non-empty there
-            L += self.no_empty_section(nsec, force=twice)
+            L += self.no_empty_section(nsec)     # laying out twice with empty sections is fine again: flatten() is idempotent (28f9637)
             L.append("F")
             if twice:
                 L.append("F")
@@ -403,6 +403,41 @@ class Gen:
         L += self.no_empty_section(3) + ["F", "E"]
         return L
 
+    # -- template 5: layout+resolve while labels are still unbound, then bind them (in the LAST section, so no offset moves) and resolve again
+    def resolve_early_program(self, arch):
+        r = self.rng
+        nlab = r.randrange(2, 6)
+        L = ["P " + arch] + ["L"] * nlab + ["NS %d" % r.choice([1, 4, 16])]
+        early = set(r.sample(range(nlab), r.randrange(0, nlab)))
+        for _ in range(r.randrange(3, 25)):
+            c = r.random()
+            if c < 0.55:
+                L.append(self.ref(arch, r.randrange(nlab), near=False))
+            elif c < 0.7:
+                L.append("S %d" % r.randrange(2))
+            elif c < 0.85:
+                L.append("D %d %d" % (r.choice([4, 8, 16, 100]) if arch == "a64" else r.choice([1, 3, 8, 100, 130]), r.getrandbits(24)))
+            elif early:
+                if arch == "a64":
+                    L.append("A 1 4")
+                L.append("B %d" % early.pop())
+        L += ["S 0", "D 4 1", "S 1", "D 4 2", "F"]
+        if r.random() < 0.3:
+            L.append("F")
+        # phase 2: only the last section grows
+        L.append("S 1")
+        for l in range(nlab):
+            if r.random() < 0.8:
+                if arch == "a64":
+                    L.append("A 1 4")
+                L.append("B %d" % l)      # already bound ones answer already_bound
+            if r.random() < 0.5:
+                L.append(self.ref(arch, r.randrange(nlab), near=False))
+            if r.random() < 0.4:
+                L.append("D %d %d" % (r.choice([4, 8, 64]), r.getrandbits(24)))
+        L += ["F", "E"]
+        return L
+
     def programs(self):
         r = self.rng
         q = self.tier == "quick"
@@ -416,6 +451,8 @@ class Gen:
                 out.append(self.random_program(arch))
             for _ in range(int((60 if q else 1000) * w)):
                 out.append(self.burst_program(arch))
+            for _ in range(int((120 if q else 2500) * w)):
+                out.append(self.resolve_early_program(arch))
         r.shuffle(out)
         return out
 
@@ -460,9 +497,8 @@ def translate(prog, hout):
     expected_answers[i] is what the model must print for model_lines[i] (None = do not compare)."""
     arch = prog[0].split()[1]
     tk = Tracker(arch)
-    # the flat byte-buffer model (proven equivalent) is run alongside unless the program fabricates large gaps
-    gap_total = sum(int(l.split()[1]) for l in prog if l.startswith("G "))
-    ml, exp = ["PF" if gap_total <= FLAT_GAP_LIMIT else "P"], ["P"]
+    # the flat byte-buffer model (sparse buffers; proven equivalent) always runs alongside
+    ml, exp = ["PF"], ["P"]
 
     def push(line, h, unres=True):
         # h = harness fields: tag err cursec cursize unres emitted fx
@@ -873,13 +909,14 @@ def compare_flat(hline, mline):
             continue
         k = int(f[1])
         segs, size = h["raw_segs"].get(k, ("-", 0))
-        want = Image(segs, size).read(0, size) if size else b""
-        got = bytes.fromhex(f[2]) if f[2] != "-" else b""
-        nbytes += len(got)
-        if got != want:
-            j = next((x for x in range(min(len(got), len(want))) if got[x] != want[x]), min(len(got), len(want)))
-            diffs.append("section %d: flat-model bytes differ from the implementation at +%d (impl %s.. flat model %s..; sizes %d/%d)"
-                         % (k, j, (want or b"")[j:j + 8].hex(), got[j:j + 8].hex(), len(want or b""), len(got)))
+        a, b = canon_segs(segs), canon_segs(f[2])
+        nbytes += sum(len(x[1]) // 2 for x in b if x[0] == "H")
+        if a != b:
+            # same bytes in another chunking? (only decidable cheaply for small sections)
+            if size <= (1 << 20) and Image(segs, size).read(0, size) == Image(f[2], size).read(0, size):
+                continue
+            diffs.append("section %d: flat-model buffer differs from the implementation (size %d): impl %s.. flat model %s.."
+                         % (k, size, str(a)[:160], str(b)[:160]))
     return diffs, nbytes
 
 
